@@ -218,6 +218,15 @@ prop("C16", "A follower's cache is a faithful copy of the leader's stream", "exp
 
 CLUSTER_ASSUME = BASE_ASSUME + ["fake/ClusterSet: cluster double whose nodes share one slot table and answer MOVED / ASK / TRYAGAIN / CROSSSLOT per the cluster specification (MIGRATING/IMPORTING, one-shot ASKING kept through MULTI, queue-time and EXEC-time checks), keys per ref/keyspec, slots per ref/hashslot; a node executes a command only where the specification lets it", "log-only execution with one cluster-wide request sequence"]
 
+prop("C18", "Cluster-mode bidirectional units are single-slot or refused, never best-effort", "exploration",
+     "a case = 1-3 node cluster with generated slot bounds x replay mode {sync, pipeline, parallel (1-3 lanes)} x window 1/2/8 x optional prefix blacklist (1-3 of 7 prefixes that cut keys out of transactions) x stream of 1-10 source units (single commands and MULTI/EXEC of 1-4 commands, PINGs in between) over 28 command shapes of the reference key table (1-key, 2-key, n-key, STORE destinations, numkeys layouts) with keys in 9 hash-tag shapes per tag and 10 'exotic' brace arrangements (empty tag, unclosed, nested, second tag, binary bytes, empty key); one case in three carries one unit with mixed-slot keys or a command whose keys cannot be determined (unknown name, malformed numkeys). "
+     "non-trivial = distinct case with a unit of >= 2 keys or a unit that must be refused. "
+     "Oracle: reference slot function (bitwise CRC16 + hash-tag rule) over the keys of the reference key-position table, applied (a) to every MULTI...EXEC any node received, executed or not, control keys included: exactly one slot, starts with a marker whose end offset names a source unit, carries exactly that unit's commands after the reference filter projection, marker slot = slot of the marker key; (b) to the source: the first unit whose keys span slots or are undeterminable must make Send return an error by itself with no transaction for it or anything behind it received by any node; a stream without such a unit must reach its end with every single-slot unit replayed and no error.",
+     [{"pkg": "c18", "test": "TestC18",
+       "quick": {"checks": 640, "shards": 16, "timeout": 900},
+       "thorough": {"checks": 25600, "shards": 16, "timeout": 7200}}],
+     CLUSTER_ASSUME + ["COMMAND GETKEYS of the double answers from the reference key table and rejects unknown commands the way a Redis node does", "unknown commands are not combined with key filters (the filter's behaviour for a command without key positions is outside this property)", "streams use database 0 only"], max_inconclusive=1)
+
 prop("C19", "Cluster replay reaches each key's slot owner and keeps per-key order", "exploration",
      "a case = 2-4 node layout with generated slot bounds x per-node reply latency (0 / 0.2 / 1.5 / 5 ms) x batch size 1-50 x {blocking, pipelined} x {ticker-driven (redirections handled), transactional (redirection => reported restart)} x stream of 3-40 writes over 15 pool keys (SET with a unique value; MSET over all pool keys of one slot) x 0-4 migration events (slot of a pool key: MIGRATING/IMPORTING with a generated subset of keys already moved => ASK, finish => MOVED, direct ownership move) fired when the cluster has processed a generated number of requests (between or in the middle of batches). "
      "non-trivial = distinct case in which a MOVED/ASK reply occurred and the replay touched >= 2 nodes. "
